@@ -392,6 +392,61 @@ theorem bmff_binds_whole (pre : List UInt8) (alg alg' : String) (a a' : List UIn
   have e2 := whole_digest alg' a' (some []) true buf' none pre prog' (Or.inr rfl) hp'
   exact e1.symm.trans e2
 
+/-! ### BMFF exclusion resolution: a box shorter than the data pattern -/
+
+/-- **A box shorter than a data pattern never satisfies the assertion's exclusion**: the
+wording "bytes `offset ..` of the box equal `value`" cannot hold when the pattern does not fit. -/
+theorem short_box_never_declared (file : List UInt8) (boxStart boxLen : Nat) (dms : List DataMap)
+    (dm : DataMap) (hm : dm ∈ dms) (hs : boxLen < dm.off + dm.value.length) :
+    dataMapsSpec file boxStart boxLen dms = false := by
+  unfold dataMapsSpec
+  rw [List.all_eq_false]
+  exact ⟨dm, hm, by simp; intro h; omega⟩
+
+/-- what a match of the code's loop means: every pattern equals the *file* bytes at
+`boxStart + offset` (inside the box or not) -/
+theorem dataMapsCode_match (file : List UInt8) (boxStart : Nat) : ∀ (dms : List DataMap),
+    dataMapsCode file boxStart dms = some true →
+    ∀ dm ∈ dms, (file.drop (boxStart + dm.off)).take dm.value.length = dm.value
+  | [], _, dm, hm => by cases hm
+  | d :: rest, h, dm, hm => by
+    unfold dataMapsCode at h
+    split at h
+    · cases h
+    · split at h
+      · rename_i heq
+        rcases List.mem_cons.1 hm with rfl | hm'
+        · exact heq
+        · exact dataMapsCode_match file boxStart rest h dm hm'
+      · cases h
+
+/-- **Code vs wording.** When every pattern fits in the box the code's loop decides exactly the
+assertion's wording. (When one does not fit the code compares against the bytes that follow the
+box; by `dataMapsCode_match` a match then forces those bytes and every byte of the box from
+`offset` on to be pattern bytes — for the C2PA entry, offset 8 right after the box header, such a
+box has no free byte.) -/
+theorem dataMapsCode_spec (file : List UInt8) (boxStart boxLen : Nat) :
+    ∀ (dms : List DataMap), (∀ dm ∈ dms, dm.off + dm.value.length ≤ boxLen) →
+    boxStart + boxLen ≤ file.length →
+    dataMapsCode file boxStart dms = some (dataMapsSpec file boxStart boxLen dms)
+  | [], _, _ => rfl
+  | d :: rest, hfit, hin => by
+    have h1 := hfit d List.mem_cons_self
+    have ih := dataMapsCode_spec file boxStart boxLen rest
+      (fun dm hm => hfit dm (List.mem_cons_of_mem _ hm)) hin
+    unfold dataMapsCode
+    rw [if_neg (by omega)]
+    by_cases he : (file.drop (boxStart + d.off)).take d.value.length = d.value
+    · rw [if_pos he, ih]
+      simp [dataMapsSpec, he, h1]
+    · rw [if_neg he]
+      simp [dataMapsSpec, he]
+
+/-- the C2PA entry on a 23-byte `uuid` box: no match by the wording, whatever the bytes are -/
+example (file : List UInt8) (st : Nat) (v : List UInt8) (hv : v.length = 16) :
+    dataMapsSpec file st 23 [⟨8, v⟩] = false :=
+  short_box_never_declared file st 23 _ ⟨8, v⟩ List.mem_cons_self (by simp [hv])
+
 /-- a failing exclusion resolver is a verification failure -/
 theorem bmff_resolver_failure (pre : List UInt8) (alg : String) (a : List UInt8) (buf : Nat) :
     verifyBmff pre alg none a buf = .err .handler := rfl
